@@ -213,7 +213,23 @@ def check_d3_d5(ctx) -> None:
     # MPF / LHS (models 1, 2)
     for cn in ('MPFReservoir', 'LHSReservoir'):
         h = repo.method(cn, 'Calculate')
+        h = dataclasses.replace(h, node=canonical_function(h.node, unnest=False, short=True))
         asg = [s for s in h.node.body if isinstance(s, ast.Assign) and norm(s.targets[0]) == f'{R}.Tresoutput.value']
+        if len(asg) == 1:
+            # one store of a value built over named intermediates: prepend and clamp are read in the composed expression
+            from gxstat.inline import inline_sequential
+            v1 = inline_sequential(asg[0].value, asg[0])
+            t1 = norm(v1)
+            pre = f'np.append([{TROCK}], ' in t1
+            ctx.check(pre, 'D3', f'{cn}.Calculate/starts-at-BHT', f'{h.module.rel}:{asg[0].lineno}',
+                      'bottom-hole temperature is not prepended to the inverted temperature history (the inversion starts at the second time step)',
+                      fact='np.append([Trock], history)')
+            if pre:
+                outer_ok = t1.startswith('np.asarray([') and f'{TROCK} if x > {TROCK} or x < {TINJ} else x' in t1 and \
+                    t1.index(f'np.append([{TROCK}], ') > t1.index(' for x in ')
+                ctx.check(outer_ok or t1.startswith(f'np.append([{TROCK}], '), 'D3', f'{cn}.Calculate/no-rewrite-after-prepend', f'{h.module.rel}:{asg[0].lineno}',
+                          f'`{t1[:80]}` rewrites the history after bottom-hole temperature was prepended')
+            continue
         ctx.require(len(asg) >= 2, f'{cn}.Calculate: Tresoutput assignments not found')
         app = [s for s in asg if norm(s.value) == f'np.append([{TROCK}], {R}.Tresoutput.value)']
         ctx.check(len(app) == 1, 'D3', f'{cn}.Calculate/starts-at-BHT', f'{h.module.rel}:{asg[-1].lineno}',
